@@ -208,7 +208,17 @@ def cli_level(ctx: Ctx, cs, base, real=False, strace=False):
     text = doc.text(0)
     root = os.path.join(base, f'cli{cs % 10 ** 6}')
     case = {'case_seed': cs, 'text': text, 'real_subprocess': real}
-    run = (lambda a, **k: (lambda r: (r.returncode, r.stdout, r.stderr))(run_cli(a, **k))) if real else (lambda a, **k: cli_inprocess(a))
+    run0 = (lambda a, **k: (lambda r: (r.returncode, r.stdout, r.stderr))(run_cli(a, **k))) if real else (lambda a, **k: cli_inprocess(a))
+    # how much the command talks (--verbose 0 / 1 / 2 / left at its default) is no part of what it writes into the files
+    vb = [['--verbose', '0'], ['--verbose', '1'], ['--verbose', '2'], []][(cs // 3) % 4]
+    ctx.mon(f'cli_verbosity:{" ".join(vb) or "default"}')
+
+    def run(a, **k):
+        a = list(a)
+        if '--verbose' in a:
+            i_ = a.index('--verbose')
+            del a[i_:i_ + 2]
+        return run0(a + vb, **k)
     expect, had_err = api_kern2ekern(text)
     # 1. single file, default output name
     f = os.path.join(root, 'single', 'score.krn')
